@@ -1,4 +1,252 @@
-import NssVerif.Data.Tables
+import NssVerif.Lemmas.Pexit
+
+/-!
+# C05 — Tau exit probability is a faithful, bounded interpolation of the tables
+
+Theorems about the state machine `Model.Taus.pexitCall` (state = the table, floored in place by every call)
+at `ℝ`, for every table satisfying `TablesReal.PexitTableOK`, plus the kernel-checked fact that the three
+shipped tables (regenerated from /repo on every run) satisfy it (all entries in [0,1], axes increasing).
+-/
 namespace C05
-theorem placeholder_dims : Gen.Tab3.pexitRows.length = Gen.Tab3.pnE := Data.t3_dims.2.2.2.2.1
+open Model.Interp Model.Taus Model.TabLoad TablesReal Bilinear CdfSample Pexit ScalarReal
+
+/-! ### the shipped tables (data theorems) -/
+
+theorem shipped_v1_ok : PexitTableOK (pexit1 : PexitTable ℝ) := by
+  have d := Data.t1_dims
+  have a := Data.t1_axes_test
+  refine pexitTableOK_mk _ _ _ _ _ ⟨d.2.2.2.2.1, d.2.2.2.2.2.1, d.2.2.2.2.2.2.1, ?_, ?_⟩ ?_ ?_
+  · decide
+  · decide
+  · rw [d.2.2.2.2.2.2.2.2.2.2.1, d.2.2.2.2.2.2.2.2.2.2.2]; exact ⟨a.1, a.2.1⟩
+  · intro r hr
+    have := Swar.allL_mem Data.t1_pexit_test r hr
+    rw [Data.t1_pG, Data.t1_pP, Data.t1_pC] at this
+    exact Data.pexitRowTest_sound _ r this
+
+theorem shipped_v2_ok : PexitTableOK (pexit2 : PexitTable ℝ) := by
+  have d := Data.t2_dims
+  have a := Data.t2_axes_test
+  refine pexitTableOK_mk _ _ _ _ _ ⟨d.2.2.2.2.1, d.2.2.2.2.2.1, d.2.2.2.2.2.2.1, ?_, ?_⟩ ?_ ?_
+  · decide
+  · decide
+  · rw [d.2.2.2.2.2.2.2.2.2.2.1, d.2.2.2.2.2.2.2.2.2.2.2]; exact ⟨a.1, a.2.1⟩
+  · intro r hr
+    have := Swar.allL_mem Data.t2_pexit_test r hr
+    rw [Data.t2_pG, Data.t2_pP, Data.t2_pC] at this
+    exact Data.pexitRowTest_sound _ r this
+
+theorem shipped_v3_ok : PexitTableOK (pexit3 : PexitTable ℝ) := by
+  have d := Data.t3_dims
+  have a := Data.t3_axes_test
+  refine pexitTableOK_mk _ _ _ _ _ ⟨d.2.2.2.2.1, d.2.2.2.2.2.1, d.2.2.2.2.2.2.1, ?_, ?_⟩ ?_ ?_
+  · decide
+  · decide
+  · rw [d.2.2.2.2.2.2.2.2.2.2.1, d.2.2.2.2.2.2.2.2.2.2.2]; exact ⟨a.1, a.2.1⟩
+  · intro r hr
+    have := Swar.allL_mem Data.t3_pexit_test r hr
+    rw [Data.t3_pG, Data.t3_pP, Data.t3_pC] at this
+    exact Data.pexitRowTest_sound _ r this
+
+/-! ### history independence -/
+
+/-- every call leaves the table floored, axes untouched -/
+theorem state_after_call (t : PexitTable ℝ) (b le : ℝ) :
+    (pexitCall t b le).1 = { t with data := floorTable t.data } := rfl
+
+/-- the result only depends on the floored table -/
+theorem result_of_floored (t : PexitTable ℝ) (b le : ℝ) :
+    (pexitCall { t with data := floorTable t.data } b le).2 = (pexitCall t b le).2 := by
+  unfold pexitCall
+  simp only [floorTable_idem]
+
+/-- **The value does not depend on how many times the module has been called before**: for every history of
+earlier queries the result on `(b, le)` equals the result on a fresh table. -/
+theorem history_independent (t : PexitTable ℝ) (hist : List (ℝ × ℝ)) (b le : ℝ) :
+    pexitAfter t hist b le = (pexitCall t b le).2 := by
+  unfold pexitAfter
+  induction hist generalizing t with
+  | nil => rfl
+  | cons q qs ih =>
+    simp only [List.foldl_cons]
+    rw [ih, state_after_call, result_of_floored]
+
+/-- the floor is idempotent: calling twice leaves the same table as calling once -/
+theorem floor_idempotent (t : PexitTable ℝ) (b le b' le' : ℝ) :
+    (pexitCall (pexitCall t b le).1 b' le').1 = (pexitCall t b le).1 := by
+  simp only [state_after_call, floorTable_idem]
+
+/-! ### the value -/
+
+/-- log10 of the floored table -/
+noncomputable def lgTable (t : PexitTable ℝ) : List (List ℝ) :=
+  (floorTable t.data).map fun r => r.map fun x => Real.log x / Real.log 10
+
+/-- the result of one call as a formula over ℝ -/
+theorem pexit_real (t : PexitTable ℝ) (b le : ℝ) : (pexitCall t b le).2 =
+    if t.beta.getD (t.beta.length - 1) 0 < b then .ok eps
+    else if Model.Interp.outOfBounds t.logE le || Model.Interp.outOfBounds t.beta (if b < t.beta.getD 0 0 then t.beta.getD 0 0 else b)
+      then .error .outOfBounds
+    else .ok ((10:ℝ) ^ bilinear t.logE t.beta (lgTable t) le (if b < t.beta.getD 0 0 then t.beta.getD 0 0 else b)) := by
+  unfold pexitCall lgTable
+  simp only [ltb_eq, ofNat_eq, Nat.cast_zero, pow_eq, eps32_eq, log10_eq]
+  have : (10:ℝ) ^ (Real.log eps / Real.log 10) = eps := ten_pow_log10 eps eps_pos
+  have hl : (Scalar.log10 : ℝ → ℝ) = fun x => Real.log x / Real.log 10 := rfl
+  norm_num [this, hl]
+
+/-- angles above the tabulated maximum take the 2⁻²³ ≈ 1.19e-7 floor -/
+theorem above_max_floor (t : PexitTable ℝ) (b le : ℝ) (hb : t.beta.getD (t.beta.length - 1) 0 < b) :
+    (pexitCall t b le).2 = .ok (1 / (2:ℝ) ^ 23) := by
+  rw [pexit_real, if_pos hb]; rfl
+
+/-- angles below the tabulated minimum take the minimum-angle value -/
+theorem below_min_uses_min (t : PexitTable ℝ) (ht : PexitTableOK t) (b le : ℝ) (hb : b < t.beta.getD 0 0) :
+    (pexitCall t b le).2 = (pexitCall t (t.beta.getD 0 0) le).2 := by
+  have hmm : t.beta.getD 0 0 < t.beta.getD (t.beta.length - 1) 0 := by
+    have := ht.nB
+    rw [getD_eq _ 0 (by omega), getD_eq _ _ (by omega)]
+    exact pairwise_get_lt _ ht.beta_inc _ _ (by omega) (by omega) (by omega)
+  rw [pexit_real, pexit_real, if_neg (not_lt.mpr (by linarith)), if_neg (not_lt.mpr hmm.le), if_pos hb,
+    if_neg (lt_irrefl _)]
+
+/-- energies outside the table are rejected with an error -/
+theorem energy_out_of_range_rejected (t : PexitTable ℝ) (ht : PexitTableOK t) (b le : ℝ)
+    (hb : b ≤ t.beta.getD (t.beta.length - 1) 0)
+    (hle : le < t.logE.getD 0 0 ∨ t.logE.getD (t.logE.length - 1) 0 < le) :
+    (pexitCall t b le).2 = .error .outOfBounds := by
+  rw [pexit_real, if_neg (not_lt.mpr hb), outOfBounds_true _ _ hle ht.nE]
+  simp
+
+/-- the floored table value at node (i, j) -/
+noncomputable def corner (t : PexitTable ℝ) (i j : Nat) : ℝ := floorR ((t.data.getD i []).getD j 0)
+
+theorem lg_get (t : PexitTable ℝ) (ht : PexitTableOK t) (i j : Nat) (hi : i < t.logE.length) (hj : j < t.beta.length) :
+    ((lgTable t).getD i []).getD j 0 = Real.log (corner t i j) / Real.log 10 := by
+  unfold lgTable corner
+  rw [floorTable_eq]
+  have hi' : i < t.data.length := by rw [ht.dimE]; exact hi
+  have hj' : j < (t.data[i]).length := by rw [ht.dimB _ (List.getElem_mem hi')]; exact hj
+  simp [List.getD_eq_getElem?_getD, List.getElem?_eq_getElem hi', List.getElem?_eq_getElem hj']
+
+theorem corner_le_one (t : PexitTable ℝ) (ht : PexitTableOK t) (i j : Nat) (hi : i < t.logE.length) (hj : j < t.beta.length) :
+    corner t i j ≤ 1 := by
+  unfold corner
+  apply floorR_le_one
+  have hi' : i < t.data.length := by rw [ht.dimE]; exact hi
+  have hj' : j < (t.data[i]).length := by rw [ht.dimB _ (List.getElem_mem hi')]; exact hj
+  have : (t.data.getD i []).getD j 0 = (t.data[i])[j] := by
+    simp [List.getD_eq_getElem?_getD, List.getElem?_eq_getElem hi', List.getElem?_eq_getElem hj']
+  rw [this]
+  exact (ht.range _ (List.getElem_mem hi') _ (List.getElem_mem hj')).2
+
+/-- **Bounded interpolation.** Inside the table the value is 10^(bilinear interpolation of log10 of the floored
+table); it lies between any lower and upper bound of the four surrounding (floored) nodes, and in (0, 1]. -/
+theorem between_corners (t : PexitTable ℝ) (ht : PexitTableOK t) (b le : ℝ)
+    (hle : InRange t.logE le) (hb : InRange t.beta b) :
+    ∃ p, (pexitCall t b le).2 = .ok p ∧ 0 < p ∧ p ≤ 1 ∧
+      searchIdx t.logE le + 1 < t.logE.length ∧ searchIdx t.beta b + 1 < t.beta.length ∧
+      ∀ lo hi, 0 < lo →
+        (lo ≤ corner t (searchIdx t.logE le) (searchIdx t.beta b) ∧ lo ≤ corner t (searchIdx t.logE le) (searchIdx t.beta b + 1) ∧
+         lo ≤ corner t (searchIdx t.logE le + 1) (searchIdx t.beta b) ∧ lo ≤ corner t (searchIdx t.logE le + 1) (searchIdx t.beta b + 1)) →
+        (corner t (searchIdx t.logE le) (searchIdx t.beta b) ≤ hi ∧ corner t (searchIdx t.logE le) (searchIdx t.beta b + 1) ≤ hi ∧
+         corner t (searchIdx t.logE le + 1) (searchIdx t.beta b) ≤ hi ∧ corner t (searchIdx t.logE le + 1) (searchIdx t.beta b + 1) ≤ hi) →
+        lo ≤ p ∧ p ≤ hi := by
+  obtain ⟨i1, i2, i3⟩ := searchIdx_bracket t.logE ht.logE_inc ht.nE le 0 hle.1 hle.2
+  obtain ⟨j1, j2, j3⟩ := searchIdx_bracket t.beta ht.beta_inc ht.nB b 0 hb.1 hb.2
+  have tt := normDist_mem t.logE ht.logE_inc le _ i1 0 i2 i3
+  have ss := normDist_mem t.beta ht.beta_inc b _ j1 0 j2 j3
+  have hval : (pexitCall t b le).2 = .ok ((10:ℝ) ^ bilinear t.logE t.beta (lgTable t) le b) := by
+    rw [pexit_real, if_neg (not_lt.mpr hb.2), if_neg (not_lt.mpr hb.1),
+      outOfBounds_false _ _ hle ht.nE, outOfBounds_false _ _ hb ht.nB]
+    simp
+  have key : ∀ lo hi, 0 < lo →
+      (lo ≤ corner t (searchIdx t.logE le) (searchIdx t.beta b) ∧ lo ≤ corner t (searchIdx t.logE le) (searchIdx t.beta b + 1) ∧
+       lo ≤ corner t (searchIdx t.logE le + 1) (searchIdx t.beta b) ∧ lo ≤ corner t (searchIdx t.logE le + 1) (searchIdx t.beta b + 1)) →
+      (corner t (searchIdx t.logE le) (searchIdx t.beta b) ≤ hi ∧ corner t (searchIdx t.logE le) (searchIdx t.beta b + 1) ≤ hi ∧
+       corner t (searchIdx t.logE le + 1) (searchIdx t.beta b) ≤ hi ∧ corner t (searchIdx t.logE le + 1) (searchIdx t.beta b + 1) ≤ hi) →
+      lo ≤ (10:ℝ) ^ bilinear t.logE t.beta (lgTable t) le b ∧ (10:ℝ) ^ bilinear t.logE t.beta (lgTable t) le b ≤ hi := by
+    intro lo hi hlo ⟨l1, l2, l3, l4⟩ ⟨u1, u2, u3, u4⟩
+    have hhi : 0 < hi := lt_of_lt_of_le (lt_of_lt_of_le hlo l1) u1
+    rw [bilinear_eq, lg_get t ht _ _ (by omega) (by omega), lg_get t ht _ _ (by omega) j1,
+      lg_get t ht _ _ i1 (by omega), lg_get t ht _ _ i1 j1]
+    have cpos : ∀ i j, 0 < corner t i j := fun i j => floorR_pos _
+    have bb := blend_between _ _ _ _ _ _ (Real.log lo / Real.log 10) (Real.log hi / Real.log 10) tt.1 tt.2 ss.1 ss.2
+      ⟨log10_mono hlo l1, log10_mono hlo l2, log10_mono hlo l3, log10_mono hlo l4⟩
+      ⟨log10_mono (cpos _ _) u1, log10_mono (cpos _ _) u2, log10_mono (cpos _ _) u3, log10_mono (cpos _ _) u4⟩
+    constructor
+    · calc lo = (10:ℝ) ^ (Real.log lo / Real.log 10) := (ten_pow_log10 lo hlo).symm
+        _ ≤ _ := ten_pow_mono bb.1
+    · calc _ ≤ (10:ℝ) ^ (Real.log hi / Real.log 10) := ten_pow_mono bb.2
+        _ = hi := ten_pow_log10 hi hhi
+  refine ⟨_, hval, Real.rpow_pos_of_pos (by norm_num) _, ?_, i1, j1, key⟩
+  -- p ≤ 1 from "all entries ≤ 1"
+  have cpos : ∀ i j, 0 < corner t i j := fun i j => floorR_pos _
+  set c00 := corner t (searchIdx t.logE le) (searchIdx t.beta b)
+  set c01 := corner t (searchIdx t.logE le) (searchIdx t.beta b + 1)
+  set c10 := corner t (searchIdx t.logE le + 1) (searchIdx t.beta b)
+  set c11 := corner t (searchIdx t.logE le + 1) (searchIdx t.beta b + 1)
+  have hmin : 0 < min (min c00 c01) (min c10 c11) := by
+    simp only [lt_min_iff]; exact ⟨⟨cpos _ _, cpos _ _⟩, cpos _ _, cpos _ _⟩
+  exact (key (min (min c00 c01) (min c10 c11)) 1 hmin
+    ⟨le_trans (min_le_left _ _) (min_le_left _ _), le_trans (min_le_left _ _) (min_le_right _ _),
+     le_trans (min_le_right _ _) (min_le_left _ _), le_trans (min_le_right _ _) (min_le_right _ _)⟩
+    ⟨corner_le_one t ht _ _ (by omega) (by omega), corner_le_one t ht _ _ (by omega) j1,
+     corner_le_one t ht _ _ i1 (by omega), corner_le_one t ht _ _ i1 j1⟩).2
+
+/-- **Node exactness.** At a table node the value is the (floored) table entry. -/
+theorem node_exact (t : PexitTable ℝ) (ht : PexitTableOK t) (i j : Nat) (hi : i < t.logE.length) (hj : j < t.beta.length) :
+    (pexitCall t (t.beta.getD j 0) (t.logE.getD i 0)).2 = .ok (corner t i j) := by
+  have eE : t.logE.getD i 0 = t.logE[i] := getD_eq _ _ hi _
+  have eB : t.beta.getD j 0 = t.beta[j] := getD_eq _ _ hj _
+  have monoE : ∀ a c (hc : c < t.logE.length), a ≤ c → t.logE.getD a 0 ≤ t.logE.getD c 0 := by
+    intro a c hc hac
+    rw [getD_eq _ a (by omega), getD_eq _ c hc]
+    rcases Nat.eq_or_lt_of_le hac with rfl | hlt
+    · exact le_refl _
+    · exact (pairwise_get_lt _ ht.logE_inc _ _ (by omega) hc hlt).le
+  have monoB : ∀ a c (hc : c < t.beta.length), a ≤ c → t.beta.getD a 0 ≤ t.beta.getD c 0 := by
+    intro a c hc hac
+    rw [getD_eq _ a (by omega), getD_eq _ c hc]
+    rcases Nat.eq_or_lt_of_le hac with rfl | hlt
+    · exact le_refl _
+    · exact (pairwise_get_lt _ ht.beta_inc _ _ (by omega) hc hlt).le
+  have hle : InRange t.logE (t.logE.getD i 0) := ⟨monoE 0 i hi (by omega), monoE i _ (by have := ht.nE; omega) (by omega)⟩
+  have hb : InRange t.beta (t.beta.getD j 0) := ⟨monoB 0 j hj (by omega), monoB j _ (by have := ht.nB; omega) (by omega)⟩
+  rw [pexit_real, if_neg (not_lt.mpr hb.2), if_neg (not_lt.mpr hb.1),
+    outOfBounds_false _ _ hle ht.nE, outOfBounds_false _ _ hb ht.nB]
+  simp only [Bool.or_self, Bool.false_eq_true, if_false]
+  congr 1
+  rw [bilinear_eq]
+  -- the cell search at a node: weight 0 on the node itself or weight 1 from the left neighbour
+  have pick : ∀ (g : List ℝ) (hs : g.Pairwise (· < ·)) (hn : 2 ≤ g.length) (k : Nat) (hk : k < g.length),
+      (normDist g g[k] (searchIdx g g[k]) = 0 ∧ searchIdx g g[k] = k) ∨
+      (normDist g g[k] (searchIdx g g[k]) = 1 ∧ searchIdx g g[k] + 1 = k) := by
+    intro g hs hn k hk
+    rcases searchIdx_node g hs hn k hk with ⟨rfl, h0⟩ | ⟨hk0, h1⟩
+    · left
+      refine ⟨?_, h0⟩
+      rw [h0]; unfold normDist
+      rw [getD_eq g 0 hk]; simp
+    · right
+      refine ⟨?_, h1⟩
+      unfold normDist
+      have hlt : searchIdx g g[k] < k := by omega
+      rw [getD_eq g _ (by omega), getD_eq g _ (by omega : searchIdx g g[k] + 1 < g.length)]
+      have e : g[searchIdx g g[k] + 1]'(by omega) = g[k] := by congr 1
+      rw [e]
+      have := pairwise_get_lt g hs _ k (by omega) hk hlt
+      simp only [sub_eq_add_neg]
+      rw [div_self]; intro h; linarith
+  rw [eE, eB]
+  have cpos : 0 < corner t i j := floorR_pos _
+  rcases pick t.logE ht.logE_inc ht.nE i hi with ⟨t0, ie⟩ | ⟨t1, ie⟩ <;>
+  rcases pick t.beta ht.beta_inc ht.nB j hj with ⟨s0, je⟩ | ⟨s1, je⟩
+  · rw [t0, s0, blend_t0_s0, ie, je, lg_get t ht i j hi hj, ten_pow_log10 _ cpos]
+  · rw [t0, s1, blend_t0_s1, ie, je, lg_get t ht i j hi hj, ten_pow_log10 _ cpos]
+  · rw [t1, s0, blend_t1_s0, ie, je, lg_get t ht i j hi hj, ten_pow_log10 _ cpos]
+  · rw [t1, s1, blend_t1_s1, ie, je, lg_get t ht i j hi hj, ten_pow_log10 _ cpos]
+
+/-! ### non-vacuity -/
+example : 2 ≤ (pexit3 : PexitTable ℝ).logE.length := shipped_v3_ok.nE
+
 end C05
